@@ -8,7 +8,8 @@ RULE = ("one-step programs: seeds {00.., FF.., 3 RFC 8032 seeds, 6 patterns} x m
         "{0,1,31,32,33,63,64,65,95,96,97,111,112,127,128,129,255,256,257,1023,1024} for all seeds): keypair (both halves, layout, accessors), signature, "
         "signature_extended(clamp(SHA512(seed))) identical, extended_to_public, exchange == X25519(hashed secret, (1+y)/(1-y)) for honest public keys and for small-order / non-canonical / y=1 / non-point strings; plus a key-derivation sweep over every single-bit seed, constant-byte seeds and pattern windows, and a sweep of 4000 (thorough 20000) short messages under one key; oracle = python RFC 8032; "
         "distinct = program text"
-        " Also: component shards from C15: wide reduction on steered remainders and committed corner inputs, a*b+c mod L on limb-field scalars (hook), fixed-base multiplication on carry-chain digit strings; the corpus again on the checked-arithmetic, force-32bits and native builds.")
+        " Also: component shards from C15: wide reduction on steered remainders and committed corner inputs, a*b+c mod L on limb-field scalars (hook), fixed-base multiplication on carry-chain digit strings; the corpus again on the checked-arithmetic, force-32bits and native builds."
+        " Buffer placement: messages of 5 / 200 / 400 bytes and the keypair at every address offset modulo 8 (+16, 33).")
 ASSUMPTIONS = ["python RFC 8032 model (validated on RFC 8032 7.1 tests 1-3 and 15 OpenSSL signatures)", "seeds and message content from the enumerated alphabet"]
 
 RFC_SEEDS = ["9d61b19deffd5a60ba844af492ec2cc44449c5697b326919703bac031cae7f60", "4ccd089b28ff96da9db6c346ec114e0f5b8a319f35aba624da8cf6ed4fb8a6fb",
@@ -109,7 +110,26 @@ def cases(tier):
 
 
 def _own_shards(tier):
-    return [("shard", i) for i in range(len(seeds()))] + [("shard_sweep", ("seed", i)) for i in range(8)] + [("shard_sweep", ("msg", i)) for i in range(8)]
+    return [("shard", i) for i in range(len(seeds()))] + [("shard_sweep", ("seed", i)) for i in range(8)] + [("shard_sweep", ("msg", i)) for i in range(8)] + [("shard_placement", None)]
+
+
+def shard_placement(_, tier):
+    """where the caller's buffers lie: messages of 5, 200 and 400 bytes (up to three SHA-512 blocks taken straight from the caller's
+    slice in both hashes) and the keypair at every address offset modulo 8 (and 16, 33) from a 64-byte boundary"""
+    ck = core.Checker(PROPERTY_ID)
+    seed = pat(5, 11, 32)
+    kp, pub = curve.ed_keypair(seed)
+    cs = []
+    offs = list(range(8)) + [16, 33]
+    for n in (5, 200, 400):
+        msg = pat(6, 2, n)
+        sig = curve.ed_sign(msg, seed).hex()
+        for om in offs:
+            for ok in (0, om, (om + 3) % 8):
+                cs.append((["ed_sign @%d:%s @%d:%s" % (om, H(msg), ok, H(kp))], [sig], None))
+    ck.run(cs)
+    ck.stats.states = len(cs)
+    return ck.stats
 
 
 def shard_sweep(arg, tier):
